@@ -352,6 +352,8 @@ impl ExecutionContext {
             .map(|partition_id| {
                 let physical = physical.clone();
                 async move {
+                    #[cfg(qe_verif)]
+                    crate::verif::sched::sched_point("context.partition").await;
                     let stream = physical.execute(partition_id).await.map_err(|e| {
                         crate::error::QueryError::Execution(format!(
                             "Partition {} execution failed: {}",
